@@ -98,8 +98,9 @@ Definition b4_ambiguity_due (body : list string) : bool :=
     lists four situations; a text that is not an integer given to an int-typed
     flag is an unusable token and is counted under the first ("an unknown
     token").  Sufficient condition judged here: the command line starts
-    <task> <int-valued, non-optional flag of that task> <x>  with x not of the
-    form [+-]?[0-9]+ . *)
+    <task> <non-optional value flag of that task> <x>  with x a text the
+    argument's type does not convert ([castable]: not of the form [+-]?[0-9]+ for
+    an int, rejected by the oracle for another callable type). *)
 Definition b5_bad_value_due (body : list string) : bool :=
   match body with
   | c0 :: f :: x :: _ =>
@@ -109,8 +110,7 @@ Definition b5_bad_value_due (body : list string) : bool :=
       | Some c =>
           match arg_of_flag c f with
           | Some a =>
-              akind_eqb (a_kind a) KInt && takes_value a && negb (a_optional a)
-              && match parse_int x with Some _ => false | None => true end
+              takes_value a && negb (a_optional a) && negb (castable a x)
           | None => false
           end
       | None => false
@@ -128,7 +128,7 @@ Definition intlike (s : string) : bool :=
 
 Definition plain_value (a : argspec) (t : string) : bool :=
   plain t && negb (is_task_name cs t)
-  && match a_kind a with KInt => intlike t | _ => true end.
+  && castable a t.
 
 Fixpoint plain_run (cur : option ctxspec) (given : list string) (pending : option argspec)
          (toks : list string) : bool :=
